@@ -194,9 +194,11 @@ class Run:
         """run-time check of SatCacheMixin's representation invariant (_cached_satness is True => Mod(G) != {}):
         a failing answer given while the invariant is broken is attributed to it"""
         s = self.solvers[on]
+        if self.cfg["cls"] == "SolverReplacement":
+            return ""       # its actual frontend holds rewritten constraints: the ghost set says nothing about that cache
         try:
             if self.refs[0].sat(self.G[on], ()) is False:
-                for o in (s, getattr(s, "_exact_frontend", None), getattr(s, "_actual_frontend", None)):
+                for o in (s, getattr(s, "_exact_frontend", None)):
                     if o is not None and getattr(o, "_cached_satness", None) is True:
                         return "@satcache-true"
         except Exception:  # noqa: BLE001
@@ -289,6 +291,7 @@ class Run:
             return self._unsat_core(i, st)
 
         # ---- queries
+        pre_qual = self._state_qualifier(on)       # invariant check in the PRE-state of the call
         if op == "satisfiable":
             out = self._call(s.satisfiable, extra_constraints=Xc, **q)
         elif op == "eval":
@@ -323,7 +326,7 @@ class Run:
         if label is None:
             return []
         if not benign:
-            label += self._state_qualifier(on)
+            label += pre_qual
         return [self._fail(i, on, label, expected, out[1], benign=benign)]
 
     # --- structural steps
@@ -671,8 +674,8 @@ def judge(ref, mode, G, st, outcome):
             return f"{op}/wrong-optimum{qual}", exp(), False
         if not _need(ref.feasible(G, X, [e], [pat])) or _need(ref.better_exists(G, X, e, pat, signed, is_max)):
             return f"{op}/wrong-optimum{qual}", exp(), False
-        if val != pat:
-            return f"{op}/not-nbit-pattern{qual}", pat, True
+        # the statement asks for the optimum "as an n-bit pattern": the value is compared modulo 2^n; the Python
+        # representation of a signed answer (signed integer vs. bit pattern) differs between frontends and is not judged
         return None, None, False
 
     if op == "solution":
